@@ -1,7 +1,7 @@
 (* Pinned statements of C08 (generated once by tools/mkpins.py from coq/props/C08.v, then committed). *)
 From DV Require Import Model.Base Model.NameCheck Model.Parser Model.Header Model.Readers Model.Uncompress
   Model.Mutate Model.Compress Model.Renamer Spec.PacketSpec Spec.RecordSpec Spec.PlainSpec Proofs.Hoare Proofs.HeaderBits Proofs.InsertLemmas Proofs.EdnsPlain Proofs.WalkSkip
-  Proofs.ViewAfter Proofs.InsertSpec props.C08.
+  Proofs.ViewAfter Proofs.InsertSpec Proofs.HeaderInv props.C08.
 Check (C08_decompression_keeps_edns_summary : forall p v q v',
   bytes_ok p -> parse p = Ok v -> uncompress p = Ok q -> parse q = Ok v' ->
   pp_edns_count v' = pp_edns_count v /\ pp_ext_rcode v' = pp_ext_rcode v /\ pp_edns_version v' = pp_edns_version v /\
@@ -51,3 +51,10 @@ Check (C08_insert_view : forall p v it sec rx s',
     pp_ext_flags (fst s') = pp_ext_flags f /\ pp_max_payload (fst s') = pp_max_payload f /\
     pp_maybe_compressed (fst s') = false /\ pp_cached (fst s') = None).
 Print Assumptions C08_insert_view.
+Check (C08_step_keeps_invariant : forall o v it s1, dinv v -> is_response (pp_packet v) -> hop2_ok o ->
+  run_hop2 o (v, it) = (s1, Ok tt) -> dinv (fst s1) /\ snd s1 = it /\ is_response (pp_packet (fst s1))).
+Print Assumptions C08_step_keeps_invariant.
+Check (C08_histories : forall p v it o ops s', bytes_ok p -> parse p = Ok v -> is_response p ->
+  (o = H2Recompute \/ exists sec rx, o = H2Insert sec rx) -> Forall hop2_ok (o :: ops) ->
+  run_hops2 (o :: ops) (v, it) = (s', Ok tt) -> dinv (fst s') /\ snd s' = it).
+Print Assumptions C08_histories.
